@@ -130,10 +130,87 @@ def _create_tabulate(ctx, dm, create) -> bool | None:
     return not bad
 
 
+def _setreplace_tabulate(ctx, dm, cp) -> bool | None:
+    """REPLACE.tabulated: DateTime.replace and DateTime.set run by the checker's interpreter on instance stubs - in a pendulum zone (both
+    folds), carrying a tzinfo of the standard library (for which `.tz` / `.timezone` answer None), naive - with no field, one field, all
+    fields, an explicit tzinfo / tz, tzinfo=None, an explicit fold; `create()` records what it is handed.  Expected: the seven fields given
+    or else the instance's own; replace(): the tzinfo given or else the instance's own *tzinfo* (whatever its class; handed on as it is or
+    through _safe_timezone), the fold given or else the instance's own; set(): the tz given or else the instance's zone, the instance's fold."""
+    from ..rules import minieval
+    from ..rules.minieval import ClassStub, Obj, Stub
+    meths = dm.methods_mro("DateTime")
+    props = {k for k, f in meths.items() if any(core.dotted(d) == "property" for d in f.decorator_list)}
+    funcs = {st.name: st for st in dm.top() if isinstance(st, ast.FunctionDef)}
+    Z, F, OTHER = Stub(_zone="pendulum", name="Zone/Own"), Stub(_zone="foreign"), Stub(_zone="pendulum", name="Zone/Other")
+    own = dict(year=2021, month=3, day=28, hour=2, minute=30, second=15, microsecond=123456)
+    allf = dict(year=1999, month=12, day=31, hour=23, minute=59, second=58, microsecond=7)
+    ok_all = True
+    for meth in ("replace", "set"):
+        if meth not in meths:
+            continue
+        bad, n = [], 0
+        tzkw = "tzinfo" if meth == "replace" else "tz"
+        # (set(tz=0): zero hours from UTC - an argument that is false)
+        calls = [{}, {"minute": 59}, dict(allf), {tzkw: OTHER}, {"year": 2000, tzkw: OTHER}] + ([{"tz": 0}, {"tz": 0.0, "hour": 5}] if meth == "set" else []) + ([{"tzinfo": None}, {"fold": 0}, {"fold": 1}, {"second": 0, "fold": 0}] if meth == "replace" else [])
+        try:
+            for label_i, tzinfo, fold in (("in a pendulum zone, fold=0", Z, 0), ("in a pendulum zone, fold=1", Z, 1), ("with a standard-library tzinfo", F, 1), ("naive", None, 0)):
+                for kw in calls:
+                    made = []
+
+                    def create(*a, **k):
+                        b = dict(zip(cp, a))
+                        b.update(k)
+                        made.append(b)
+                        return Stub(_created=len(made))
+                    cls = ClassStub(_new=None, _isa=lambda v: False, create=create, _methods=lambda: meths)
+                    glob = {**minieval.module_consts(dm), "pendulum": Stub(_safe_timezone=lambda z, *a, **k: Stub(_safe_of=z)), "UTC": Stub(_zone="pendulum", name="UTC"),
+                            "Timezone": ClassStub(_new=None, _isa=lambda v: getattr(v, "_zone", None) == "pendulum"), "FixedTimezone": ClassStub(_new=None, _isa=lambda v: False),
+                            "ValueError": ValueError, "TypeError": TypeError}
+                    me = Obj(_methods=meths, _props=props, _natives={}, _ctor=cls, tzinfo=tzinfo, fold=fold, **own)
+                    got = minieval.call(meths[meth], [me], dict(kw), {**funcs, "$globals": glob})
+                    n += 1
+                    label = f"<{label_i}>.{meth}({', '.join(f'{k}={getattr(v, 'name', None) or getattr(v, '_zone', v)}' for k, v in kw.items())})"
+                    if len(made) != 1 or getattr(got, "_created", None) != 1:
+                        raise core.Unsupported(f"{label} does not return one create(...) call")
+                    b = made[0]
+                    want = {f: kw.get(f, own[f]) for f in own}
+                    gotf = {f: b.get(f) for f in own}
+                    if gotf != want:
+                        bad.append(f"{label}: create() receives the fields {gotf} (expected {want})")
+                        continue
+                    want_fold = kw.get("fold", fold)
+                    if b.get("fold", "<default>") != want_fold:
+                        bad.append(f"{label}: create() receives fold={b.get('fold', '<not passed: the default>')} (expected {want_fold})")
+                        continue
+                    tzv = b.get("tz", "<not passed: the UTC default>")
+                    tzv = getattr(tzv, "_safe_of", tzv)
+                    if tzkw in kw:
+                        accepted = [kw[tzkw]]
+                    elif meth == "replace":
+                        accepted = [tzinfo]
+                    else:
+                        accepted = [tzinfo, tzinfo if getattr(tzinfo, "_zone", None) == "pendulum" else None]
+                    if not any(tzv is a or (isinstance(a, (int, float)) and not isinstance(a, bool) and type(tzv) is type(a) and tzv == a) for a in accepted):
+                        show = lambda v: "None" if v is None else v if isinstance(v, str) else repr(v) if isinstance(v, (int, float)) else getattr(v, "name", None) or f"the {getattr(v, '_zone', '?')} tzinfo"     # noqa: E731
+                        bad.append(f"{label}: create() receives tz={show(tzv)} (expected {' or '.join(show(a) for a in accepted)})")
+        except (core.Unsupported, KeyError, TypeError, AttributeError, ValueError, IndexError, RecursionError, minieval.Raised) as e:
+            ctx.unverified("REPLACE.tabulated", f"DateTime.{meth}", f"outside the checker's interpreter: {type(e).__name__}: {str(e)[:160]}", dm.loc(meths[meth]))
+            ok_all = None
+            continue
+        ctx.ob("REPLACE.tabulated", f"DateTime.{meth}", not bad, f"{n} calls: " + (f"wrong: {bad[:3]}" if bad else
+               "create() receives the fields given or the instance's own, its tzinfo / zone unless one is given, its fold unless one is given"), dm.loc(meths[meth]))
+        if not bad:
+            ctx.established(("FUNNEL.set", "FUNNEL.replace", "FUNNEL.fold", "REPLACE.keep"), f"DateTime.{meth}", "REPLACE.tabulated")
+        else:
+            ok_all = False
+    return ok_all
+
+
 def _funnel(ctx) -> None:
     im, dm, tzm = pmod("__init__"), pmod("datetime"), pmod("tz.timezone")
     create = dm.func("DateTime.create")
     _create_tabulate(ctx, dm, create)
+    _setreplace_tabulate(ctx, dm, core.params(create))
     cp = core.params(create)
     ctx.ob("FUNNEL.signature", "DateTime.create", cp[:9] == F7 + ["tz", "fold"] and "raise_on_unknown_times" in cp,
            f"create parameters are {cp}", dm.loc(create))
@@ -159,7 +236,11 @@ def _funnel(ctx) -> None:
             ctx.ob("FUNNEL.set", "DateTime.set/return", False,
                    f"returns `{un(ret)[:100]}`; must re-create through create()", dm.loc(ex[2]))
             continue
-        b = core.bind(ret, cp)
+        try:
+            b = core.bind(ret, cp)
+        except core.Unsupported as e_:
+            ctx.unverified("FUNNEL.set", "DateTime.set/return", str(e_), dm.loc(ex[2]))
+            continue
         for f in F7:
             arg = b.get(f)
             got = nun(cfg.subst_path(p, arg, set())) if arg is not None else "<not passed>"
@@ -193,7 +274,11 @@ def _funnel(ctx) -> None:
             ctx.ob("FUNNEL.replace", "DateTime.replace/return", False,
                    f"returns `{un(ret)[:100]}`; must re-create through create()", dm.loc(ex[2]))
             continue
-        b = core.bind(ret, cp)
+        try:
+            b = core.bind(ret, cp)
+        except core.Unsupported as e_:
+            ctx.unverified("FUNNEL.replace", "DateTime.replace/return", str(e_), dm.loc(ex[2]))
+            continue
         for f in F7 + ["fold"]:
             arg = b.get(f)
             got = nun(cfg.subst_path(p, arg, set())) if arg is not None else "<not passed>"
